@@ -1,6 +1,7 @@
 package engine
 
 import (
+	"bytes"
 	"context"
 	"fmt"
 	"sort"
@@ -9,6 +10,8 @@ import (
 
 	"github.com/cockroachdb/pebble"
 	"github.com/cockroachdb/pebble/internal/base"
+	"github.com/cockroachdb/pebble/internal/manifest"
+	"github.com/cockroachdb/pebble/record"
 	"github.com/cockroachdb/pebble/rangekey"
 	"github.com/cockroachdb/pebble/verifsim/kvmodel"
 	"github.com/cockroachdb/pebble/verifsim/simrt"
@@ -377,6 +380,15 @@ func (h *dbHarness) onRemove(path string) {
 		if min := h.db.VerifsimMinUnflushedLogNumRaw(); num >= min {
 			Violation("live-file-deleted", "%s is being deleted although the minimum unflushed log number is %d: it is still needed for recovery", path, min)
 		}
+		// Ground truth that does not rest on Pebble's in-memory bookkeeping:
+		// what recovery would need is decided by the MANIFEST as it is durable
+		// on disk right now. The largest minimum-unflushed-log number of any
+		// durable version edit is an upper bound of what a crash at this
+		// instant would recover with; a WAL at or above it holds data that no
+		// durable table has yet.
+		if dmin, ok := h.durableMinUnflushedLog(); ok && num >= dmin {
+			Violation("live-file-deleted", "%s is being deleted or reused although the MANIFEST that is durable at this instant records minimum unflushed log %d: a crash now would need this WAL for recovery", path, dmin)
+		}
 		h.count("check.remove_wal_not_needed", 1)
 		return
 	}
@@ -446,4 +458,38 @@ func (h *dbHarness) checkNoDeadFiles(what string) {
 		simrt.Progress()
 	}
 	Violation("dead-file-lingers", "%s: with no reader open and after 10 simulated minutes these obsolete files are still in the directory: %v", what, lingering)
+}
+
+// durableMinUnflushedLog parses the durable bytes of every MANIFEST in the
+// store directory and returns the largest MinUnflushedLogNum any durable
+// version edit records.
+func (h *dbHarness) durableMinUnflushedLog() (uint64, bool) {
+	var max uint64
+	found := false
+	for _, n := range h.disk.ListNoFault("db") {
+		if !strings.HasPrefix(n, "MANIFEST-") {
+			continue
+		}
+		data := h.disk.ReadDurable("db/" + n)
+		if len(data) == 0 {
+			continue
+		}
+		rr := record.NewReader(bytes.NewReader(data), 0)
+		for {
+			r, err := rr.Next()
+			if err != nil {
+				break
+			}
+			var ve manifest.VersionEdit
+			if err := ve.Decode(r); err != nil {
+				break
+			}
+			found = true
+			if v := uint64(ve.MinUnflushedLogNum); v > max {
+				max = v
+			}
+		}
+	}
+	h.count("check.remove_wal_vs_durable_manifest", 1)
+	return max, found
 }
